@@ -170,6 +170,7 @@ pub fn dequeue(a: &Args) {
     } else {
         None
     };
+    let serialized = a.opt_u128("serialized").unwrap_or(0) == 1;
     let mut joins = Vec::new();
     for t in 0..threads {
         let r = actor.clone();
@@ -177,7 +178,13 @@ pub fn dequeue(a: &Args) {
             let mut out = Vec::new();
             for j in 0..msgs {
                 let id = (t * 1000 + j + 1) as u64;
-                out.push((id, r.cast(id).is_ok()));
+                if serialized && j % 2 == 1 {
+                    // every second message arrives in serialized form, as a remote node would deliver it
+                    use ractor::Message;
+                    out.push((id, r.get_cell().send_serialized(id.serialize().unwrap()).is_ok()));
+                } else {
+                    out.push((id, r.cast(id).is_ok()));
+                }
             }
             out
         }));
